@@ -172,7 +172,7 @@ type c15Client struct {
 	// population dynamics: several entries may carry the same id (successive
 	// connections of one client id; the predecessor of an entry is the nearest
 	// earlier entry with the same id).
-	Persist  bool   `json:"persist,omitempty"`    // cleanSession=0 (honoured only for the first connection of an id)
+	Persist  bool   `json:"persist,omitempty"`    // cleanSession=0 (on a re-used id: the session of the predecessor is inherited in memory or restored from the storage)
 	StartMs  int    `json:"start_ms,omitempty"`   // delay before dialling (after the After condition)
 	After    string `json:"after,omitempty"`      // "" | ready (predecessor still connected: take-over) | gone (predecessor ended)
 	End      string `json:"end,omitempty"`        // "" stays | disconnect | close | reset | ping (PINGREQ, only useful when superseded)
@@ -188,6 +188,7 @@ type c15Pub struct {
 	Burst int    `json:"burst,omitempty"`
 	B64   bool   `json:"b64,omitempty"`
 	Dist  bool   `json:"dist,omitempty"`
+	After string `json:"after,omitempty"` // client id: issue only once the last connection of that id has finished its initial subscribes
 }
 
 type c15Publisher struct {
